@@ -7,7 +7,7 @@ from sexpr import enc, hexs
 from odata_query import ast
 
 def prop_mods(pid):
-    base = ["ODataVerif.Tie.Orm", "ODataVerif.Spec.NumFn"]
+    base = ["ODataVerif.Tie.Orm", "ODataVerif.Spec.NumFn"] + [m for m in ("ODataVerif.Props.DateOrder",) if os.path.exists(common.lean_module_path(m))]
     for m in (f"ODataVerif.Props.{pid}",):
         if os.path.exists(common.lean_module_path(m)):
             base.append(m)
@@ -221,6 +221,20 @@ def run(ctx, pid="C02"):
     ctx.extra["judged_numeric"] = dict(ntally_all)
     ctx.note(f"numeric stream (floor / ceiling / round x 6 comparisons x 7 constants, with and without a NULL row, every entry style, Spec.NumFn): {dict(ntally_all)}")
     viol += nviol
+    # date stream: Edm.Date comparisons / membership / year … second, judged against Spec.DateSem (Lean)
+    dtally_all, dviol = collections.Counter(), []
+    drows = sm.date_rows()
+    load_rows(drows)
+    for sname, fn in styles:
+        def ids_of_d(t, fn=fn):
+            r = fn(t)
+            return {int(x) for x in r.split()[1:]} if r.startswith("ids") else r
+        v, tl = sm.judge_dates(ctx, ids_of_d, drows)
+        dviol += [(t, None, row, f"[{sname}] {why}") for t, row, why in v]
+        dtally_all.update(tl)
+    ctx.extra["judged_dates"] = dict(dtally_all)
+    ctx.note(f"date stream (comparisons with 8 date literals on both sides, in-lists, year / month / day / hour / minute / second, rows incl. years 0001 / 0999 / 9999 and NULL, every entry style, Spec.DateSem): {dict(dtally_all)}")
+    viol += dviol
     ctx.extra["judged"] = dict(tally)
     ctx.extra["filters_constant_vs_discriminating"] = dict(dist)
     ctx.extra["known_finding_hits"] = kf_hits
